@@ -5,6 +5,11 @@ MCLoose0 == {"k1"}
 MCPacked0 == <<"k4">>
 MCAdds == {"k2", "k4"}
 MCDirect == {"k3"}
+MCPrevIdx == {}
+(* incremental: k4 was in the previous backup; k5 was added, packed and cleaned since *)
+MCPacked0Inc == <<"k4", "k5">>
+MCPrevIdxInc == {[k |-> "k4", pos |-> 1]}
+MCKeysInc == MCKeys \cup {"k5"}
 OrderCode == <<"loose", "dump", "idx", "packs", "rest">>
 OrderIndexFirst == <<"dump", "idx", "loose", "packs", "rest">>
 OrderPacksFirst == <<"loose", "packs", "dump", "idx", "rest">>
